@@ -65,7 +65,6 @@ impl MT292 {
 
         verify_parser_complete(&parser)?;
 
-
         Ok(MT292 {
             field_20,
             field_21,
